@@ -18,7 +18,7 @@ from ..seams import quiet
 from py4hw.base import Wire
 
 PROP = 'C05'
-TIERS = {'quick': 4500, 'thorough': 40000}
+TIERS = {'quick': 4500, 'thorough': 280000}
 RULE = ('each run: one seeded design of 3-30 sequential library blocks wired to each other (chains, rings, swap '
         'pairs, memories, counters, combinational logic in the feedback paths, 1-3 clock drivers); the perturbed '
         'system re-draws every visit order before every edge and splits/cancels/restarts the run, the twin steps '
